@@ -42,7 +42,7 @@ func newCase(t *rapid.T, root, tag string, prog *mrogen.Program, prop string) (*
 			os.RemoveAll(dir)
 		}
 	}
-	src := prog.Source(nil)
+	src := prog.Source(runLayout(t))
 	opts := simrun.Options{StageOpts: stagefn.Opts{NullPct: rapid.SampledFrom([]int{0, 0, 5}).Draw(t, "outNullPct")}}
 	model := refsem.Eval(prog, &opts.StageOpts)
 	if model.Unsupported != "" || len(model.Jobs) > 60 || len(model.Jobs) < 2 {
